@@ -1,10 +1,14 @@
 package kafka
 
 import (
+	"context"
 	"errors"
 	"io"
+	"net"
+	"time"
 
 	"github.com/segmentio/kafka-go/compress"
+	pfindcoordinator "github.com/segmentio/kafka-go/protocol/findcoordinator"
 )
 
 // C17 on the Conn path: the connection is lost after any prefix of a fetch response (the frame announces more
@@ -111,4 +115,64 @@ func VH_C17_ConnFetchCut(version, nrec, codec int) {
 	vhAssert(cerr != nil, "close-reports-the-truncation")
 	vhAssert(fc.closed, "connection-closed-after-a-truncated-response")
 	vhReach("c17-conn-fetch-cut")
+}
+
+// Transport: a connection whose response was cut short is not used again. The first call fails; the second call
+// for the same broker is served by a newly dialed connection, it neither reuses the dead one nor blocks.
+func VH_C17_TransportDeadConn(cutTail int) {
+	vhConcreteClock(true)
+	dials := 0
+	answer := func(node int32) []byte {
+		w := &vhW{}
+		w.i16(0)
+		w.i32(node)
+		w.str("h")
+		w.i32(9092)
+		return vhFrameOf(2, w.b)
+	}
+	f1 := vhApiVersionsFrame(1, []vhApiRange{{10, 0, 0}, {3, 0, 1}})
+	a1 := answer(100)
+	conns := []*vhFakeConn{
+		{data: append(append([]byte{}, f1...), a1[:len(a1)-cutTail]...)}, // the answer loses its last bytes, then EOF
+		{data: append(append([]byte{}, f1...), answer(200)...)},
+	}
+	ready := make(event)
+	close(ready)
+	p := &connPool{
+		dial: func(ctx context.Context, network, address string) (net.Conn, error) {
+			if dials >= len(conns) {
+				return nil, vhErrCoordinator
+			}
+			c := conns[dials]
+			dials++
+			return c, nil
+		},
+		dialTimeout: time.Second, idleTimeout: time.Minute, clientID: "vh",
+		ready: ready, wake: make(chan event), conns: make(map[int32]*connGroup),
+	}
+	p.ctrl = p.newConnGroup(&networkAddress{network: "tcp", address: "bootstrap:9092"})
+	p.setState(connPoolState{})
+	var resA, resB Response
+	var errA, errB error
+	doneA, doneB := false, false
+	go func() {
+		resA, errA = p.roundTrip(context.Background(), &pfindcoordinator.Request{Key: "A"})
+		doneA = true
+	}()
+	vhSettle()
+	vhAssert(doneA && errA != nil && resA == nil, "call-on-the-cut-connection-fails")
+	vhAssert(conns[0].closed, "cut-connection-is-closed")
+	go func() {
+		resB, errB = p.roundTrip(context.Background(), &pfindcoordinator.Request{Key: "B"})
+		doneB = true
+	}()
+	vhSettle()
+	vhAssert(doneB, "next-call-does-not-block-on-the-dead-connection")
+	if doneB {
+		vhAssert(errB == nil && dials == 2, "next-call-is-served-by-a-new-connection")
+		if errB == nil {
+			vhAssert(resB.(*pfindcoordinator.Response).NodeID == 200, "next-call-gets-the-new-connections-answer")
+		}
+	}
+	vhReach("c17-transport-dead-conn")
 }
